@@ -71,6 +71,5 @@ Print Assumptions C03_example_decodes.
 
 (* Full statements not yet proved (decided by checks/c03.py on every run):
    build_decode_full : as C03_build_decode for union vectors and nested buffers;
-   reader_decode     : verify_root ... b = Ok -> every generated accessor returns the field of decode_root b
-                       (absent scalar = schema default, is_present false; optional = null; force-added default present);
+   (reader_decode - every generated accessor returns the field of decode_root b - is proved in Properties_C03b.v);
    the generated T_f_add default elision / T_create argument order. *)
